@@ -2071,13 +2071,21 @@ class _ChunkedTransferDecoder:
             # Check if we've run up against the trailer size limit: if the next
             # read contains the terminating CRLF then we'll have this many bytes
             # of trailers (including the CRLFs).
-            minTrailerSize = (
-                self._receivedTrailerHeadersSize
-                + len(self._buffer)
-                + (1 if self._buffer.endswith(b"\r") else 2)
-            )
-            if minTrailerSize > self._maxTrailerHeadersSize:
-                raise _MalformedChunkedDataError("Trailer headers data is too long.")
+            #
+            # A lone CR may be the first half of the CRLF which terminates the
+            # trailer section. That CRLF is not a trailer, so it is not counted:
+            # otherwise trailers within the limit would be accepted or rejected
+            # depending on how the terminating CRLF is split across reads.
+            if self._buffer != b"\r":
+                minTrailerSize = (
+                    self._receivedTrailerHeadersSize
+                    + len(self._buffer)
+                    + (1 if self._buffer.endswith(b"\r") else 2)
+                )
+                if minTrailerSize > self._maxTrailerHeadersSize:
+                    raise _MalformedChunkedDataError(
+                        "Trailer headers data is too long."
+                    )
             # Continue processing more data.
             return False
 
